@@ -93,6 +93,7 @@ MERGE_MESHES = {
     "PRISM15": lambda: Z.template_3d("PRISM15", 1),
     "mixed_3d": lambda: Z.template_3d(("PRISM6", "HEXA8"), [2, 1, 1]),
 }
+JOB_MESHES = ["quad4_quad", "tri6_quad", "quad8_quad", "quad9_L", "tri10_quad", "prism15_quad", "hexa8_square"]
 MERGE_QUICK = ["TRI3", "QUAD4", "TRI6", "mixed", "TETRA4", "HEXA8", "PRISM6"]
 LETTERS = ["A", "E", "D", "S"]  # A, A translated onto a shared edge, A disjoint, a second copy of A
 # N: like E but 2e-7 further (used with coordinates x 1000 and an explicit absolute tolerance of 1e-6: a gap of 2e-4 must survive)
@@ -109,6 +110,11 @@ def cases(tier, seed):
         # ne + 1: the partitioner has to refuse (not asked of the file mesh: its dropped element still counts for the partitioner)
         for nproc in range(1, ne + (1 if spec["kind"] == "sliver" else 2)):
             out.append({"kind": "partition", "mesh": name, "Nproc": nproc, "ne": ne})
+    # E2, depth 3: two meshing jobs in ONE process (every ordered pair of element families), the second one repeated: what a job returns
+    # may not depend on the jobs done before it
+    for a in JOB_MESHES:
+        for b in JOB_MESHES:
+            out.append({"kind": "jobs", "first": a, "second": b})
     lists = [list(t) for n in (1, 2, 3) for t in itertools.product(LETTERS, repeat=n)]
     for name in (MERGE_QUICK if tier == "quick" else MERGE_MESHES):
         for mp in MAPS:
@@ -116,6 +122,13 @@ def cases(tier, seed):
                 for mpts in (True, False):
                     for lst in lists:
                         out.append({"kind": "merge", "mesh": name, "map": mp, "unique": uniq, "mergePoints": mpts, "list": "".join(lst)})
+        # W: a mesh of LOWER dimension (the boundary of E taken as a mesh of its own: a frame of bars / a skin of plates sharing the
+        # edge/face x = 1 with A and sticking out of it): lists that mix dimensions
+        for mp in MAPS:
+            for uniq in (True, False):
+                for mpts in (True, False):
+                    for lst in ("W", "AW", "WA", "ADW", "WAE", "AWW"):
+                        out.append({"kind": "merge", "mesh": name, "map": mp, "unique": uniq, "mergePoints": mpts, "list": lst})
         # bodies in millimetres (coordinates x 1000) merged with an explicit ABSOLUTE tolerance: nodes further apart than it stay distinct
         for lst in ("AN", "AEN", "NA"):
             out.append({"kind": "merge", "mesh": name, "map": "identity", "unique": True, "mergePoints": True, "list": lst, "big": True})
@@ -222,9 +235,12 @@ def _partition(name, nproc):
         if "coef" in spec:
             return mesher._Mesh_Get_Meshes(nproc, spec["coef"])
         return mesher._Mesh_Get_Meshes(nproc)
-    finally:
+    except BaseException:
+        # (a refused job leaves the session to its caller; a job that succeeds is left exactly as the library leaves it: the next job of
+        # this process starts from there)
         if gmsh.isInitialized():
             gmsh.finalize()
+        raise
 
 
 def _main(mesh):
@@ -654,6 +670,70 @@ def _cluster(points):
     return ids, len(keys)
 
 
+_NODES_PER = {  # nodes of a conforming mesh from its vertex-level topology: (per vertex, per edge, per triangular face, per quadrangular face, per cell)
+    "TRI3": (1, 0, 0, 0, 0), "TRI6": (1, 1, 0, 0, 0), "TRI10": (1, 2, 1, 0, 0), "TRI15": (1, 3, 3, 0, 0),
+    "QUAD4": (1, 0, 0, 0, 0), "QUAD8": (1, 1, 0, 0, 0), "QUAD9": (1, 1, 0, 1, 0),
+    "TETRA4": (1, 0, 0, 0, 0), "TETRA10": (1, 1, 0, 0, 0), "HEXA8": (1, 0, 0, 0, 0), "HEXA20": (1, 1, 0, 0, 0), "HEXA27": (1, 1, 0, 1, 1),
+    "PRISM6": (1, 0, 0, 0, 0), "PRISM15": (1, 1, 0, 0, 0), "PRISM18": (1, 1, 0, 1, 0),
+}
+_EDGES = {"TRI": [(0, 1), (1, 2), (2, 0)], "QUAD": [(0, 1), (1, 2), (2, 3), (3, 0)],
+          "TETRA": [(0, 1), (1, 2), (2, 0), (0, 3), (1, 3), (2, 3)],
+          "HEXA": [(0, 1), (1, 2), (2, 3), (3, 0), (4, 5), (5, 6), (6, 7), (7, 4), (0, 4), (1, 5), (2, 6), (3, 7)],
+          "PRISM": [(0, 1), (1, 2), (2, 0), (3, 4), (4, 5), (5, 3), (0, 3), (1, 4), (2, 5)]}
+_FACES = {"TRI": [(0, 1, 2)], "QUAD": [(0, 1, 2, 3)], "TETRA": [(0, 1, 2), (0, 1, 3), (1, 2, 3), (0, 2, 3)],
+          "HEXA": [(0, 1, 2, 3), (4, 5, 6, 7), (0, 1, 5, 4), (1, 2, 6, 5), (2, 3, 7, 6), (3, 0, 4, 7)],
+          "PRISM": [(0, 1, 2), (3, 4, 5), (0, 1, 4, 3), (1, 2, 5, 4), (2, 0, 3, 5)]}
+
+
+def _expected_node_count(et, con):
+    """number of nodes of a conforming mesh of `et` elements, counted from the VERTICES of its elements (first nodes of each row)"""
+    tp = Z.topo(et)
+    nv = {"TRI": 3, "QUAD": 4, "TETRA": 4, "HEXA": 8, "PRISM": 6}[tp]
+    V = np.asarray(con)[:, :nv]
+    verts = set(V.ravel().tolist())
+    edges = {tuple(sorted((int(r[a]), int(r[b])))) for r in V for a, b in _EDGES[tp]}
+    f3 = {tuple(sorted(int(r[i]) for i in f)) for r in V for f in _FACES[tp] if len(f) == 3}
+    f4 = {tuple(sorted(int(r[i]) for i in f)) for r in V for f in _FACES[tp] if len(f) == 4}
+    pv, pe, p3, p4, pc = _NODES_PER[et]
+    return pv * len(verts) + pe * len(edges) + p3 * len(f3) + p4 * len(f4) + pc * V.shape[0]
+
+
+def _signature(parts):
+    sig = []
+    for part in parts:
+        for et, g in part.dict_groupElem.items():
+            sig.append((et.name, np.asarray(g.connect).tolist(), [np.asarray(a).tolist() if hasattr(a, "__len__") else a for a in g._Get_partitioned_data()]))
+        sig.append(np.round(np.asarray(part.coord, dtype=float), 10).tolist())
+    return sig
+
+
+def _run_jobs(case):
+    a, b = case["first"], case["second"]
+    key = dict(first=a, second=b)
+    etb = PART_MESHES[b]["et"]
+    v = []
+    _partition(a, 2)
+    B1 = _partition(b, 2)
+    B2 = _partition(b, 2)
+    for r, part in enumerate(B1):
+        names = sorted(_main(part))
+        if names != [etb]:
+            v.append(viol("job_elemtype", f"job 2 asked for {etb} (after a {PART_MESHES[a]['et']} job in the same process): part {r} is made of {names}", **key))
+            break
+    if not v:
+        # the parts keep the global numbering: all elements of all parts, by their global node rows
+        rows = {tuple(r) for part in B1 for r in np.asarray(_main(part)[etb].connect).tolist()}
+        con = np.array(sorted(rows))
+        nexp = _expected_node_count(etb, con)
+        owned = np.unique(np.concatenate([np.asarray(part._Get_mpi_owned_nodes()) for part in B1]))
+        if owned.size != nexp or np.unique(con).size != nexp:
+            v.append(viol("job_node_count", f"job 2 ({etb} after {PART_MESHES[a]['et']}): {owned.size} owned nodes, {np.unique(con).size} nodes used by the elements, "
+                                            f"{nexp} expected from the vertices, edges, faces and cells of the mesh", **key))
+    if _signature(B1) != _signature(B2):
+        v.append(viol("job_not_reproducible", f"the same {etb} split done twice in a row (after a {PART_MESHES[a]['et']} job) differs", **key))
+    return {"violations": v, "fingerprint": fp("jobs", a, b, _signature(B1)), "nontrivial": True, "outcome": "violation" if v else "jobs_ok", "transitions": 3}
+
+
 def _run_merge(case):
     from EasyFEA import Mesh
 
@@ -666,7 +746,14 @@ def _run_merge(case):
     if big:
         A = A * 1000.0
         key["big"] = True
-    zms = {L: zm0.mapped(A, A @ np.asarray(SHIFT[L])) for L in set(LETTERS) | set(letters)}
+    zms = {L: zm0.mapped(A, A @ np.asarray(SHIFT[L])) for L in (set(LETTERS) | set(letters)) - {"W"}}
+    if "W" in letters:
+        zmE = zms["E"]
+        used = np.unique(np.concatenate([np.asarray(c).ravel() for c in zmE.boundary.values()]))
+        new = -np.ones(zmE.coords.shape[0], dtype=int)
+        new[used] = np.arange(used.size)
+        zms["W"] = Z.ZooMesh(zmE.coords[used], {t: new[np.asarray(c)] for t, c in zmE.boundary.items()}, {"dim": d - 1}, zmE.name + "|skin", {})
+    d_exp = d if any(L != "W" for L in letters) else d - 1
     built = {}
     lst = []
     for L in letters:
@@ -754,9 +841,9 @@ def _run_merge(case):
             else:
                 if Counter(got) != Counter(exp):
                     v.append(viol("elements_multiset", f"{t}: merged mesh has {len(got)} elements, the inputs together {len(exp)}; multisets differ", elemType=t, **key))
-        if merged.dim != d:
-            v.append(viol("merged_dim", f"merged.dim = {merged.dim}, inputs have dim {d}", **key))
-        if len(merged.orphanNodes) > 0:
+        if merged.dim != d_exp:
+            v.append(viol("merged_dim", f"merged.dim = {merged.dim}, inputs have dim {d_exp}", **key))
+        if len(merged.orphanNodes) > 0 and "W" not in letters:
             v.append(viol("orphan_nodes", f"merged mesh has orphan nodes {list(merged.orphanNodes)[:8]}", **key))
     fpr = fp(name, mp, uniq, mpts, case["list"], mc.shape[0], {et.name: int(g.Ne) for et, g in merged.dict_groupElem.items()},
              np.round(mc, 8)[np.lexsort(np.round(mc, 8).T)] if mc.size else mc)
